@@ -12,6 +12,7 @@
   * `C04_*_fails`     — one concrete witness per conformance condition that is really needed.
 -/
 import NetflowModel.Lemmas.A5V9Witness
+import NetflowModel.Lemmas.G1Arms
 namespace Netflow.Props
 open Netflow Netflow.Spec
 
@@ -237,5 +238,11 @@ theorem C04_repr_lookup_only_not_preserved :
     have := (h.2 300 ⟨300, 4, 0, [⟨1, 4⟩], []⟩).mpr (by decide)
     revert this
     decide
+
+/-- **C04.G** (regenerated on every run) the value decoder of the model IS the interpretation (`Arms.lean`) of the arms of
+    `FieldValue::from_field_type` as `tools/translate.py` reads them from data_number.rs now: which reader, which constructor and which duration unit each library type uses. -/
+theorem C04_value_arms_generated (c : ValueCfg) (ty : FType) (len : Nat) (i : Bytes) :
+    parseValue c ty len i = parseValueBy Generated.valueArms c ty len i :=
+  G1.parseValue_eq_generated c ty len i
 
 end Netflow.Props
